@@ -181,7 +181,18 @@ func c05Oracle(cr *caseRun) [][2]string {
 			}
 			if root == "" {
 				if accessibleFields(pkg, st) > 0 {
-					vs = append(vs, [2]string{"no-entries-at-all", m.Name + ": the function body mentions no destination field"})
+					// the recorded finding when every accessible field is a struct without accessible members
+					sig := "field-silently-dropped:struct-without-accessible-members"
+					for i := 0; i < st.NumFields(); i++ {
+						f := st.Field(i)
+						if !fieldVisible(pkg, f) {
+							continue
+						}
+						if fs, ok := f.Type().Underlying().(*types.Struct); !ok || accessibleFields(pkg, fs) != 0 {
+							sig = "no-entries-at-all"
+						}
+					}
+					vs = append(vs, [2]string{sig, m.Name + ": the function body mentions no destination field"})
 				}
 				continue
 			}
